@@ -46,3 +46,12 @@ package timer
 //@   note runs the function inside a literal whose deferred literal recovers: a panicking function does not stop the drainer
 //@ func (*Timer).Async$1$1$1
 //@   inline
+
+// ---- runtime timers behind the engine's timer wheel: tArmed[t] the timer is scheduled, tDur[t] its duration
+//@ package nbio
+//@ package timer
+//@ func (*Timer).AfterFunc
+//@   trusted
+//@   note wraps time.AfterFunc with a recover barrier; the runtime timer is trusted
+//@   ensures result != nil && fresh(result) && tArmed[result] && tDur[result] == timeout
+//@   assigns tArmed[result], tDur[result], allocates
